@@ -2,7 +2,7 @@
 # PROC runs of the MPI build over the completion modes (with / without a dedicated polling pool),
 # the error-status path, a trace-check of the real poller (hooks 2001..2010) against the extracted
 # model, the same for poll_singlethreaded (hooks 2001/2002/2009/2011, dedicated pool), the transform_mpi route
-# model as compiled (translator flag), compaction DIFF.
+# model as compiled (translator flag), compaction DIFF, MTPOOL: start_polling on user pools with 1..3 workers.
 import random
 
 from vlib import Hit, Result, diff_lines, sh
@@ -13,11 +13,12 @@ ASSUMPTIONS = [
     'moodycamel ConcurrentQueue is a concurrent bag (try_dequeue returns any element or, spuriously, nothing)',
     'sequentially consistent interleaving at the granularity of one atomic access / one lock-protected block; the lock scope of poll_multithreaded is split into drain / test-report / compact+unlock steps',
     'callbacks are identified with the request they were registered with (ghost); the body of a callback is covered by the transform_mpi route model (PART B), composed through the contract "invoked at most once, after a test"',
-    'poll_singlethreaded (PART D): ONE OS thread runs the poller and every registration (dedicated pool with one worker, non-inline requests are transferred to it) '
-    '- checked on every run by the second-thread monitors of STRACE and PROC; no callback registers a request inline (no_inline_add) - true of the callbacks transform_mpi '
+    'poll_singlethreaded (PART D): ONE OS thread runs the poller and every registration (register_polling installs it only for a polling pool with one worker - '
+    'C20_single_mode_one_worker, tied to the source by the translator - and non-inline requests are transferred to that pool) '
+    '- checked on every run by the second-thread monitors of STRACE, PROC and MTPOOL (start_polling on user pools with 1..3 workers); no callback registers a request inline (no_inline_add) - true of the callbacks transform_mpi '
     'registers (they resume a suspended task / schedule a task / signal the downstream receiver, whose own transform_mpi transfers to the pool first), checked by the '
     'inline-add monitor of PROC with operations chained from inside continuations; the single-threaded model applied to a polling pool with several workers is NOT sound '
-    '(C20_single_second_thread_compacts)',
+    '(C20_single_second_thread_compacts, C20_single_second_thread_wrong_callback) - the code no longer does that',
     'the mpix_continuation method is not compiled',
     'liveness (some worker keeps calling the polling function) is assumed, not proved',
 ]
@@ -93,7 +94,9 @@ def run(ctx):
               'through transform_mpi with counting receivers, started from concurrent tasks in seeded random order; a third of the pairs is '
               '"gated" (the send is issued 40 ms later by another thread); pika::wait() is called while they are in flight. '
               'ERR: MPI_ERRORS_RETURN + MPI_DATATYPE_NULL. TRACE: generalized requests completed by the harness, hook trace replayed by the '
-              'extracted model step by step; STRACE: the same for poll_singlethreaded (dedicated pool, registrations as tasks on the pool). TM/CMP: seeded event sequences / slot vectors on the extracted model. '
+              'extracted model step by step; STRACE: the same for poll_singlethreaded (dedicated pool, registrations as tasks on the pool). '
+              'MTPOOL: start_polling(no_handler, name of a user pool with W = 1..3 workers), transform_mpi over generalized requests, phase 1 = the two-thread '
+              'witness schedule forced through hook 2009, phase 2 = n operations free running. TM/CMP: seeded event sequences / slot vectors on the extracted model. '
               'A case is non-trivial when requests were really registered with the poller or (TRACE) when at least two threads touched the poller; '
               'distinct = distinct IN lines')
     rnd = random.Random(ctx.seed * 1000003 + 20)
@@ -210,6 +213,71 @@ def run(ctx):
             r.hits.append(Hit('monitor', 'C20:polloff:still_polling', 'after stop_polling a worker still polled MPI requests (mode %d pool %d)' % (mode, pool), rep))
         if (mode & 56) != 0 and int(f['polled_while_on']) != 1:
             r.hits.append(Hit('monitor', 'C20:polloff:not_polling', 'while polling was enabled a completed request was not picked up (mode %d pool %d): %s' % (mode, pool, lines[0]), rep))
+
+    # ------------------------------------------------------------ MTPOOL: start_polling(handler, "user pool with W workers")
+    # public API only (rp_callback pool, start_polling(no_handler, name), transform_mpi over generalized requests).
+    # The lock-free single-threaded poller may only be chosen for a polling pool with ONE worker
+    # (C20_single_mode_one_worker); phase 1 of the harness replays the model witness
+    # C20_single_second_thread_wrong_callback (hook 2009 keeps the thread with the Testany hit until another
+    # thread has compacted), phase 2 runs n operations freely.
+    mt = [(30, 2), (30, 1), (18, 2), (8, 3)] if quick else [(m, w) for m in (30, 18, 8, 24, 26, 10, 29, 0) for w in (1, 2, 3)]
+    mtn = 60 if quick else 300
+    for mode, w in mt:
+        args = [h, 'mtpool', str(mode), str(w), str(mtn), str(ctx.seed)]
+        rc, out = sh(args, timeout=150, env=env)
+        lines = [x for x in out.split('\n') if x.startswith('OUT ')]
+        r.evaluations += 1
+        r.count('mtpool:workers=%d' % w)
+        rep = {'harness': 'c20_mpi', 'args': args[1:], 'output': lines}
+        tag = 'm%dw%d' % (mode, w)
+        main = [x for x in lines if ' pool_threads=' in x]
+        if any('hang=1' in x for x in lines) or rc in (4, 124):
+            r.hits.append(Hit('monitor', 'C20:mtpool:hang', 'MTPOOL %s (start_polling on a pool with %d workers): runtime hung: %s'
+                              % (tag, w, ' | '.join(lines)[-400:]), rep))
+            continue
+        if rc != 0 or not main:
+            r.hits.append(Hit('monitor', 'C20:mtpool:crash', 'MTPOOL %s (start_polling on a pool with %d workers): process crashed rc=%d: %s'
+                              % (tag, w, rc, out[-500:]), rep))
+            continue
+        f = fields(main[0], 3)
+        nthreads = int(f['pool_threads'])
+        if nthreads != w:
+            r.hits.append(Hit('tie', 'C20:mtpool:pool_size', 'MTPOOL %s: pool has %d threads' % (tag, nthreads), rep))
+        if int(f['single_regs']) > 0 and nthreads > 1:
+            r.hits.append(Hit('monitor', 'C20:mtpool:single_mode_multiworker', 'MTPOOL %s: %s registrations pushed straight into the unlocked vectors '
+                              '(single_thread_mode_ on, poll_singlethreaded installed) although the polling pool has %d workers'
+                              % (tag, f['single_regs'], nthreads), rep))
+        if int(f['single_threads']) > 1:
+            r.hits.append(Hit('monitor', 'C20:mtpool:second_thread', 'MTPOOL %s: %s OS threads ran the single-threaded poller / its registrations'
+                              % (tag, f['single_threads']), rep))
+        prem = int(f['ph1_premature']) + int(f['ph2_premature'])
+        lost = int(f['ph1_lost']) + int(f['ph2_lost'])
+        multi = int(f['ph1_multi']) + int(f['ph2_multi'])
+        if prem > 0:
+            r.hits.append(Hit('monitor', 'C20:mtpool:premature', 'MTPOOL %s: %d receivers got set_value although MPI had not completed their request '
+                              '(the callback of another request was invoked; phase 1: %s, held=%s other_thread_compacted=%s)'
+                              % (tag, prem, f['ph1_premature'], f['held'], f['other_thread_compacted']), rep))
+        if lost > 0:
+            r.hits.append(Hit('monitor', 'C20:mtpool:lost', 'MTPOOL %s: %d receivers were never signalled although their request completed' % (tag, lost), rep))
+        if multi > 0:
+            r.hits.append(Hit('monitor', 'C20:mtpool:multiple_signals', 'MTPOOL %s: %d receivers were signalled more than once' % (tag, multi), rep))
+        if int(f['errs']) > 0:
+            r.hits.append(Hit('monitor', 'C20:mtpool:unexpected_error', 'MTPOOL %s: %s error/stopped signals' % (tag, f['errs']), rep))
+        if int(f['work_after']) != 0:
+            r.hits.append(Hit('monitor', 'C20:mtpool:work_count', 'MTPOOL %s: get_work_count() = %s after everything completed' % (tag, f['work_after']), rep))
+        if not any('shutdown=ok' in x for x in lines) and not (prem or lost or multi or int(f['work_after'])):
+            r.hits.append(Hit('monitor', 'C20:mtpool:shutdown', 'MTPOOL %s: no orderly shutdown' % tag, rep))
+        polled = (mode & 56) != 0
+        regs = int(f['single_regs']) + int(f['queued_regs'])
+        if int(f['ph1_reg']) != 1 or regs != (mtn + 2 if polled else 0):
+            r.hits.append(Hit('tie', 'C20:mtpool:registrations', 'MTPOOL %s: %d registrations seen by hook 2001, expected %d (ph1_reg=%s)'
+                              % (tag, regs, mtn + 2 if polled else 0, f['ph1_reg']), rep))
+        if w == 1 and polled and (mode & 1) == 0 and (int(f['single_regs']) != mtn + 2 or int(f['held']) != 1):
+            r.hits.append(Hit('tie', 'C20:mtpool:single_not_exercised', 'MTPOOL %s: a one-worker user pool with non-inline requests must run poll_singlethreaded '
+                              '(single_regs=%s held=%s)' % (tag, f['single_regs'], f['held']), rep))
+        if nthreads > 1 and regs > 0:
+            r.nontrivial(' '.join(args[1:]))
+        r.sample({'mtpool': main[0]}, cap=2)
 
     # ------------------------------------------------------------ TRACE against the extracted model
     ins, outs = [], []
